@@ -832,6 +832,18 @@ func Execute(s *Scenario, dir string) (res *Result) {
 	if x.hook != nil {
 		x.hook.Release()
 	}
+	if s.SlowConvergeWaitSec > 0 && !x.converged() {
+		// a scripted peer stalls: if the service picked it to sync from, nothing moves until the periodic sync-peer check
+		// drops it. Wait for that BEFORE anything is announced - an announcement made while the service is stuck behind a
+		// stalled sync peer and far from current is legitimately ignored (other peers' invs are not followed then), and no
+		// later round of this scenario would bring the block again.
+		if x.waitFor(x.converged, time.Duration(s.SlowConvergeWaitSec)*time.Second) {
+			x.count("slow_initial_convergence_observed", 1)
+		}
+		if !x.quiesce("after the stall detection") {
+			return
+		}
+	}
 	if s.IdleSec > 0 {
 		time.Sleep(time.Duration(s.IdleSec) * time.Second)
 		x.count("idle_seconds_after_the_initial_sync", int64(s.IdleSec))
